@@ -177,3 +177,254 @@ def count_true(conds, bits=8):
     for c in conds:
         t = t + z3.If(c, z3.BitVecVal(1, bits), z3.BitVecVal(0, bits))
     return t
+
+
+# ==============================================================================================
+# instances: senders / drainers / stopper over one detached mailbox
+# ==============================================================================================
+import os
+import time
+
+SEND = 'ActorProperties::send_message_unchecked::<TMessage>'
+DRAIN = 'ActorProperties::drain'
+SET_STATUS = 'ActorProperties::set_status'
+PORTS_DROP = '<ActorPortSet as Drop>::drop'
+
+
+def portset_value(prog, I):
+    sd = prog.crate.struct('ActorPortSet')
+    want = ['signal_rx', 'stop_rx', 'supervisor_rx', 'message_rx']
+    if not sd or sorted(sd['fields']) != sorted(want):
+        raise Inconclusive('ActorPortSet fields changed: %s' % (sd and sd['fields']))
+    f = {'signal_rx': Obj('oneshot', 'sigq', 'rx'), 'stop_rx': Obj('oneshot', 'stopq', 'rx'), 'supervisor_rx': Obj('chan', 'supq', 'rx'),
+         'message_rx': Obj('chan', 'msgq', 'rx')}
+    return Agg('ActorPortSet', [f[n] for n in sd['fields']])
+
+
+def install_receiver_models(I):
+    import models_sync
+    from models_std import ok, err, branch
+
+    @I.model(r'UnboundedReceiver::<.*>::close$', 'mpsc::UnboundedReceiver::close')
+    def m_rx_close(I, st, f, args, fr):
+        o = models_sync.obj_at(I, st, args[0])
+        if o.oid in I.hooks.get('ignore_objects', ()):
+            return I.ret(st, UNIT)
+        name = I.objinfo.get(o.oid, {}).get('name', str(o.oid))
+        I.shared_op(st, o, 'close', objects.chan_close(), {}, label='%s.close' % name)
+        return I.ret(st, UNIT)
+
+    @I.model(r'UnboundedReceiver::<.*>::try_recv$', 'mpsc::UnboundedReceiver::try_recv')
+    def m_rx_try_recv(I, st, f, args, fr):
+        o = models_sync.obj_at(I, st, args[0])
+        if o.oid in I.hooks.get('ignore_objects', ()):
+            return I.ret(st, err(Enum('TryRecvError', 'Empty', 0, ())))
+        name = I.objinfo.get(o.oid, {}).get('name', str(o.oid))
+        res = I.shared_op(st, o, 'try_recv', objects.chan_recv(), {'has': 'bool', 'val': objects.ID_BITS, 'closed': 'bool'}, label='%s.try_recv' % name)
+        outs = []
+        for s2, has in branch(I, st, res['has']):
+            if has:
+                outs.append(Outcome(s2, 'ret', ok(Opaque('received', info=res['val']))))
+            else:
+                outs.append(Outcome(s2, 'ret', err(Enum('TryRecvError', 'Empty', 0, ()))))
+        return outs
+
+    @I.model(r'oneshot::Receiver::<.*>::close$', 'oneshot::Receiver::close')
+    def m_os_close(I, st, f, args, fr):
+        o = models_sync.obj_at(I, st, args[0])
+        if o.oid in I.hooks.get('ignore_objects', ()):
+            return I.ret(st, UNIT)
+        I.shared_op(st, o, 'close', objects.oneshot_close(), {}, label='%s.close' % o.oid)
+        return I.ret(st, UNIT)
+
+    @I.model(r'oneshot::Receiver::<.*>::try_recv$', 'oneshot::Receiver::try_recv')
+    def m_os_try_recv(I, st, f, args, fr):
+        o = models_sync.obj_at(I, st, args[0])
+        if o.oid in I.hooks.get('ignore_objects', ()):
+            return I.ret(st, err(Enum('TryRecvError', 'Empty', 0, ())))
+        res = I.shared_op(st, o, 'poll', objects.oneshot_poll(), {'ready_val': 'bool', 'ready_closed': 'bool', 'val': objects.ID_BITS}, label='%s.try_recv' % o.oid)
+        outs = []
+        for s2, has in branch(I, st, res['ready_val']):
+            outs.append(Outcome(s2, 'ret', ok(Opaque('received', info=res['val'])) if has else err(Enum('TryRecvError', 'Empty', 0, ()))))
+        return outs
+
+
+def build_threads(prog, n_senders, n_msgs, n_drainers, n_stoppers, loop_bound, status0=2, never_closed=True):
+    """returns (trees, meta, interps)"""
+    trees, meta, interps = [], [], []
+    tid = 0
+    for i in range(n_senders):
+        I = new_interp(prog, loop_bound)
+        if never_closed and n_stoppers == 0:
+            I.hooks['chan_never_closed'] = {'msgq'}
+        pv = props_value(prog, I)
+        idents = [msg_ident(i, j) for j in range(n_msgs)]
+
+        def mkprog(j, pv=pv, idents=idents):
+            def program(I, st):
+                cell = st.alloc(pv)
+                return run_calls(I, st, [('send%d' % j, SEND, (lambda s: [Ref(cell, ()), Opaque('msg', ident=idents[j])]))], call_base=j)
+            return program
+
+        def summarize(s, kind, results, seg, idents=idents):
+            return {'kind': kind, 'send': classify_send(results[0], idents[seg]) if kind == 'ret' else None}
+        trees.append(conc.unfold(I, 'sender%d' % i, tid, State, [mkprog(j) for j in range(n_msgs)], summarize))
+        meta.append({'kind': 'sender', 'idents': idents})
+        interps.append(I)
+        tid += 1
+    for d in range(n_drainers):
+        I = new_interp(prog, loop_bound)
+        if never_closed and n_stoppers == 0:
+            I.hooks['chan_never_closed'] = {'msgq'}
+        pv = props_value(prog, I)
+
+        def program(I, st, pv=pv):
+            cell = st.alloc(pv)
+            return run_calls(I, st, [('drain', DRAIN, lambda s: [Ref(cell, ())])])
+
+        def summarize(s, kind, results, seg):
+            r = results[0] if results else None
+            return {'kind': kind, 'drain_ok': isinstance(r, Enum) and r.variant == 'Ok'}
+        trees.append(conc.unfold(I, 'drainer%d' % d, tid, State, program, summarize))
+        meta.append({'kind': 'drainer'})
+        interps.append(I)
+        tid += 1
+    for k in range(n_stoppers):
+        # the exiting actor task: publishes Stopping (ActorProperties::set_status) and drops its port set (close + flush)
+        I = new_interp(prog, max(loop_bound, 2 + n_senders * n_msgs + 1))
+        install_receiver_models(I)
+        I.hooks['ignore_objects'] = {'sigq', 'stopq', 'supq'}
+        I.objinfo['supq'] = {'name': 'supervision'}
+        pv = props_value(prog, I)
+        ports = portset_value(prog, I)
+
+        def program(I, st, pv=pv, ports=ports):
+            cell = st.alloc(pv)
+            pcell = st.alloc(ports)
+            stopping = Enum('ActorStatus', 'Stopping', 5, ())
+            return run_calls(I, st, [('set_status', SET_STATUS, lambda s: [Ref(cell, ()), stopping]),
+                                     ('ports_drop', PORTS_DROP, lambda s: [Ref(pcell, (), True)])])
+
+        def summarize(s, kind, results, seg):
+            return {'kind': kind}
+
+        # the supervision channel is not part of this instance: its close/try_recv are skipped
+        orig_close = None
+        trees.append(conc.unfold(I, 'stopper%d' % k, tid, State, program, summarize))
+        meta.append({'kind': 'stopper'})
+        interps.append(I)
+        tid += 1
+    return trees, meta, interps
+
+
+def oracle(bmc, trees, meta, prop):
+    """returns (premise, dict name -> claim)"""
+    T = len(trees)
+    claims = {}
+    all_leaf = z3.And([bmc.finished(t, ('ret', 'unwind', 'abort')) for t in range(T)])
+    claims['no_thread_panics'] = z3.And([bmc.finished(t, ('ret',)) for t in range(T)])
+    marker_nodes = send_events(trees, MARKER)
+    marker_sent = [z3.And(bmc.executed[n], n.event.res['ok']) for n in marker_nodes]
+    n_markers = count_true(marker_sent)
+    has_drainer = any(m['kind'] == 'drainer' for m in meta)
+    has_stopper = any(m['kind'] == 'stopper' for m in meta)
+    if has_drainer and not has_stopper:
+        claims['exactly_one_marker'] = n_markers == 1
+    else:
+        claims['at_most_one_marker'] = z3.ULE(n_markers, 1)
+    marker_pos = z3.BitVecVal(255, 8)
+    for n, c in zip(marker_nodes, marker_sent):
+        marker_pos = z3.If(c, n.event.res['apos'], marker_pos)
+    claims['queue_model_not_overflowed'] = z3.And([z3.Not(z3.And(bmc.executed[n], n.event.res['overflow'])) for tr in trees for n in tr.event_nodes() if n.event.opname == 'send'] or [z3.BoolVal(True)])
+    if has_drainer:
+        claims['status_at_least_draining'] = z3.UGE(bmc.final_state('status')['w'], 4)
+    if has_stopper:
+        q = bmc.final_state('msgq')
+        claims['queue_closed_and_flushed_by_exit'] = z3.And(q['closed'], q['len'] == 0)
+    drain_last = []
+    for t, m in enumerate(meta):
+        if m['kind'] == 'drainer':
+            drain_last.append(pick_time(bmc, last_event_nodes(trees[t], 0), 0))
+    for t, m in enumerate(meta):
+        if m['kind'] != 'sender':
+            continue
+        prev_pos = None
+        prev_ok = None
+        for j, ident in enumerate(m['idents']):
+            ret = bmc.leaf_select(t, lambda leaf: z3.BitVecVal(leaf.data['send'], 4), z3.BitVecVal(15, 4), seg=j)
+            evs = send_events(trees, ident)
+            enq = [z3.And(bmc.executed[n], n.event.res['ok']) for n in evs]
+            cnt = count_true(enq)
+            apos = z3.BitVecVal(254, 8)
+            for n, c in zip(evs, enq):
+                apos = z3.If(c, n.event.res['apos'], apos)
+            nm = 't%d.m%d' % (t, j)
+            before_marker = z3.ULT(apos, marker_pos) if has_drainer else z3.BoolVal(True)
+            claims[nm + '.ok_implies_enqueued_once_before_marker'] = z3.Implies(ret == 0, z3.And(cnt == 1, before_marker))
+            claims[nm + '.err_returns_own_message_unqueued'] = z3.Implies(ret != 0, z3.And(ret == 1, cnt == 0))
+            first = pick_time(bmc, first_event_nodes(trees[t], j), 0)
+            for k, dl in enumerate(drain_last):
+                claims[nm + '.refused_after_drain%d_returned' % k] = z3.Implies(z3.UGT(first, dl), ret == 1)
+            if prev_pos is not None:
+                claims[nm + '.program_order'] = z3.Implies(z3.And(prev_ok, ret == 0), z3.ULT(prev_pos, apos))
+            prev_pos, prev_ok = apos, ret == 0
+    return all_leaf, claims
+
+
+def run_instance(ctx, prop, prog, name, n_senders, n_msgs, n_drainers, n_stoppers, rounds, loop_bound, status0=2, spurious=False):
+    t0 = time.time()
+    trees, meta, interps = build_threads(prog, n_senders, n_msgs, n_drainers, n_stoppers, loop_bound, status0)
+    for I in interps:
+        ctx.absorb(I)
+    order = list(range(len(trees)))
+    if ctx.seed:
+        import random
+        random.Random(ctx.seed).shuffle(order)
+    qcap = 0 if n_stoppers == 0 else max(4, n_senders * n_msgs + 2)
+    objs = shared_objects(status0=status0, qcap=qcap)
+    bmc = conc.BMC(objs, trees, rounds, order=order, no_spurious=not spurious)
+    premise, claims = oracle(bmc, trees, meta, prop)
+    info = {'instance': name, 'threads': [tr.name for tr in trees], 'paths': [tr.paths for tr in trees], 'nodes': [len(tr.nodes) for tr in trees],
+            'event_depth': [tr.max_event_depth() for tr in trees], 'rounds': rounds, 'slots': bmc.S, 'cas_unroll': loop_bound, 'spurious_cas': spurious,
+            'unfold_s': round(time.time() - t0, 2)}
+    ctx.extra.setdefault('instances', []).append(info)
+    T = len(trees)
+    trunc_free = z3.And([z3.Not(bmc.at_leaf_kind(t, 'trunc')) for t in range(T)])
+    ret0 = bmc.leaf_select(0, lambda leaf: z3.BitVecVal(leaf.data['send'], 4), z3.BitVecVal(15, 4)) if meta[0]['kind'] == 'sender' else None
+    sender_marker = [z3.And(bmc.executed[n], n.event.res['ok']) for t, m in enumerate(meta) if m['kind'] == 'sender' for n in send_events([trees[t]], MARKER)]
+    chan_fail = [z3.And(bmc.executed[n], z3.Not(n.event.res['ok'])) for t, m in enumerate(meta) if m['kind'] == 'sender' for n in trees[t].event_nodes()
+                 if n.event.opname == 'send' and n.event.info != MARKER]
+    base = list(bmc.cons)
+    ctx.witness(name + '.all_threads_can_finish', base + [premise, trunc_free], logic='QF_BV')
+    if ret0 is not None and (n_drainers or n_stoppers):
+        ctx.witness(name + '.a_send_is_refused', base + [premise, ret0 == 1], logic='QF_BV')
+        ctx.witness(name + '.a_send_is_accepted', base + [premise, ret0 == 0], logic='QF_BV')
+    if sender_marker and n_drainers:
+        ctx.witness(name + '.marker_sent_by_last_ticket_holder', base + [premise, z3.Or(sender_marker)], logic='QF_BV')
+    if n_stoppers and chan_fail:
+        ctx.witness(name + '.admitted_send_hits_closed_channel', base + [premise, z3.Or(chan_fail)], logic='QF_BV')
+    allc = z3.And(list(claims.values()))
+    t1 = time.time()
+    r, m = ctx.solve(base + [premise, trunc_free, z3.Not(allc)], logic='QF_BV')
+    dt = time.time() - t1
+    info['main_query_s'] = round(dt, 1)
+    if r == 'unsat':
+        for cn in claims:
+            ctx.obligations.append({'name': '%s.%s' % (name, cn), 'group': '%s.%s' % (prop, cn.split('.')[-1]), 'status': 'proved', 'solver_s': round(dt / len(claims), 3)})
+        ctx.samples.append({'instance': info, 'claims': list(claims)[:14], 'verdict': 'unsat: no schedule within the bound violates any claim'})
+    elif r == 'unknown':
+        ctx.inconclusive.append('solver unknown on instance %s: %s' % (name, m))
+    else:
+        bad = [cn for cn, c in claims.items() if z3.is_false(m.eval(c, model_completion=True))]
+        sched = bmc.schedule_from_model(m)
+        rec = {'name': '%s.%s' % (name, bad[0] if bad else 'claims'), 'group': prop, 'status': 'cex', 'solver_s': round(dt, 3), 'violated': bad,
+               'schedule': [(t, lbl) for (_, t, _, lbl, _) in sched]}
+
+        def on_cex(model):
+            import mailbox_replay
+            return mailbox_replay.replay(prop, n_senders, n_msgs, n_drainers, n_stoppers, status0, sched, bad)
+        ctx.handle_cex(rec['name'], '%s.%s' % (prop, bad[0].split('.')[-1] if bad else 'claims'), m, on_cex, rec)
+        ctx.obligations.append(rec)
+    r2, m2 = ctx.solve(base + [z3.Or([bmc.at_leaf_kind(t, 'trunc') for t in range(T)])], timeout_ms=60000, logic='QF_BV')
+    info['truncated_leaf_reachable'] = r2
+    return info
